@@ -76,8 +76,7 @@ func (core *JApiCore) next(lexeme scanner.Lexeme) *jerr.JApiError {
 		return nil
 
 	case scanner.ContextExplicitOpening:
-		core.processContextBegin()
-		return nil
+		return core.processContextBegin(lexeme)
 
 	case scanner.ContextExplicitClosing:
 		return core.processContextEnd()
@@ -147,8 +146,13 @@ func (core *JApiCore) processBody(lexeme scanner.Lexeme) {
 	core.currentDirective.BodyCoords = coordsFromLexeme(lexeme)
 }
 
-func (core *JApiCore) processContextBegin() {
+func (core *JApiCore) processContextBegin(lexeme scanner.Lexeme) *jerr.JApiError {
+	if core.currentDirective.HasExplicitContext {
+		// The directive has its opening parenthesis already: one more would never be closed.
+		return core.japiError(jerr.ThereIsNoDirectiveForExplicitContext, lexeme.Begin())
+	}
 	core.currentDirective.HasExplicitContext = true
+	return nil
 }
 
 func (core *JApiCore) closeLastExplicitContext() *jerr.JApiError {
